@@ -879,10 +879,14 @@ impl<'a> crate::ranger::Store<SignedEntry> for StoreInstance<'a> {
             }
             // regular range: iter1 = x <= t < y, iter2 = none
             Ordering::Less => {
-                // iterator for entries from range.x to range.y
-                let start = Bound::Included(range.x().to_byte_tuple());
-                let end = Bound::Excluded(range.y().to_byte_tuple());
-                let bounds = RecordsBounds::new(start, end);
+                // iterator for entries from range.x to range.y, clamped to this replica's
+                // namespace: range bounds come from the peer and may lie in other namespaces,
+                // but entries of other documents must never be visible (or sent) through here
+                let bounds = RecordsBounds::within_namespace(
+                    &self.namespace,
+                    range.x().to_byte_tuple(),
+                    range.y().to_byte_tuple(),
+                );
                 let iter = RecordsRange::with_bounds(&tables.records, bounds)?;
                 chain_none(iter)
             }
